@@ -15,7 +15,8 @@ HNAME = "harness.limits"
 WIDTH_CTX = ["stmt", "stmt_nested", "linecomment", "linecomment_tab", "eol_comment", "block1", "block_first",
              "block_mid", "block_last", "block_mid_tab", "proto_no_newline", "linecomment_no_newline", "define_string",
              "in_second_function", "header_proto", "header_define", "header_member", "global_decl", "ctrl_line", "decl_line",
-             "block_after_function", "eol_comment_block"]
+             "block_after_function", "eol_comment_block", "two_long_lines_one_statement", "long_second_line_of_statement",
+             "line_ending_in_splice", "two_long_lines_in_prototype"]
 LINES_CTX = ["plain", "with_decls", "with_blocks", "second_function", "nested_blocks", "wrapped_call2", "wrapped_call3",
              "wrapped_condition", "wrapped_assign_in_block", "else_chain"]
 COUNT_CTX = {"funcs": ["plain", "with_protos", "with_globals"],
@@ -144,6 +145,39 @@ def build(limit, ctx, n, ex):
                 b.add("\twhile (x < ")            # 4 + 11 = 15
                 b.ident(w - 16)
                 b.add(")\n\t\tx++;\n\treturn (x);\n}\n")
+        elif ctx in ("two_long_lines_one_statement", "long_second_line_of_statement"):
+            b.add("int\tmain(void)\n{\n\tint\tx;\n\n")
+            l1 = b.line
+            b.add("\tx = foo(")                 # 4 + 8 = 12
+            if ctx == "two_long_lines_one_statement":
+                b.ident(w - 13)
+            else:
+                b.add("aa")
+            b.add(",\n")
+            l2 = b.line
+            b.add("\t\t\t")                     # 12
+            b.ident(w - 14)
+            b.add(");\n\treturn (x);\n}\n")
+            exp = [("LINE_TOO_LONG", l2, w > 80)]
+            if ctx == "two_long_lines_one_statement":
+                exp.insert(0, ("LINE_TOO_LONG", l1, w > 80))
+            return name, b.items, exp, l2
+        elif ctx == "two_long_lines_in_prototype":
+            l1 = b.line
+            b.add("int\tfoo(int ")                # 4 + 8 = 12
+            b.ident(w - 13)
+            b.add(",\n")
+            l2 = b.line
+            b.add("\t\t\tint ")                 # 12 + 4 = 16
+            b.ident(w - 18)
+            b.add(");\n\n" + SIMPLE_FUNC)
+            return name, b.items, [("LINE_TOO_LONG", l1, w > 80), ("LINE_TOO_LONG", l2, w > 80)], l1
+        elif ctx == "line_ending_in_splice":
+            b.add("int\tmain(void)\n{\n\tint\tx;\n\n")
+            target = b.line
+            b.add("\tx = ")                       # 8
+            b.ident(w - 12)
+            b.add(" + \\\n\t\t1;\n\treturn (x);\n}\n")   # ' + \' = 4 columns
         elif ctx == "define_string":
             target = b.line
             b.add('#define MSG "')          # 13
@@ -348,7 +382,8 @@ def judge(limit, ctx, n, o, expect):
             v.append((f"C03:{limit}:{ctx}:missing", f"{limit}={n} (> {L}) in context {ctx}: {code} is not reported" + (f" on line {line}" if line else "")))
         if not present and hits:
             v.append((f"C03:{limit}:{ctx}:spurious", f"{limit}={n} (<= {L}) in context {ctx}: {code} is reported"))
-        if present and line is not None and len(hits) != len(on_line):
+        allowed = {l for c, l, pr in expect if c == code and pr and l is not None}
+        if present and line is not None and any(e[2] not in allowed for e in hits):
             v.append((f"C03:{limit}:{ctx}:elsewhere", f"{code} is also reported on a line that is within the limit"))
     # no other limit diagnostic may appear
     other = sorted({e[0] for e in o.errors if e[0] in LIMIT_CODES and e[0] not in [c for c, _, _ in expect]
